@@ -344,6 +344,11 @@ RunStart(t) == [t EXCEPT !.att = {}, !.obs = {}, !.val = [c \in Comp |-> Absent]
 RECURSIVE CanonRun(_, _)
 CanonRun(t, i) == IF i > Len(Canon) THEN t ELSE CanonRun(Persist(Attempt(t, Canon[i]), Canon[i]), i + 1)
 Den(t) == CanonRun(RunStart(t), 1)
+(* the components not attempted yet, in canonical order (used by the trace module: an execution that leaves a  *)
+(* component out is judged by what the complete run would have produced)                                      *)
+RECURSIVE Complete(_, _)
+Complete(t, i) == IF i > Len(Canon) THEN t
+                  ELSE Complete(IF Canon[i] \in t.att THEN t ELSE Persist(Attempt(t, Canon[i]), Canon[i]), i + 1)
 
 (* phase: finish - the working directory or its tar.gz, and the exceptions to report (OSError) *)
 RaisedOS(t) == {c \in Comp : "oserr" \in ErrKinds(t, c)}
